@@ -5,6 +5,7 @@
  *   explore <opsfile> <cap> <maxstates> <out>   breadth-first search of the implementation's own
  *                                               state graph (snapshot/restore of the context)
  *   walk <seed> <steps> <cap> <out>             random walk, full 16-bit values
+ *   twalk <seed> <steps> <out>                  random walk over every register of the tree (user registers included) and *CLS
  *   codes <out>                                 every error code -32768..32767 on a fresh context
  *   path <opsfile> <cap> <out>                  ops of the file in sequence from the initial state
  */
@@ -57,10 +58,16 @@ static const scpi_command_t cmds[] = {
 };
 static scpi_interface_t itf = {on_error, on_write, on_control, on_flush, NULL};
 
-static const char * regnames[] = {"STB", "SRE", "ESR", "ESE", "OPER", "OPERE", "OPERC", "QUES", "QUESE", "QUESC"};
+static const char * regnames[] = {"STB", "SRE", "ESR", "ESE", "OPER", "OPERE", "OPERC", "QUES", "QUESE", "QUESC",
+#if USE_CUSTOM_REGISTERS
+    VERIF_USER_REGNAMES         /* the user register tree of the verification build (harness/regtree/scpi_user_config.h) */
+#endif
+};
+#define NREG ((int) SCPI_REG_COUNT)
+typedef char regnames_cover_all_registers[(sizeof regnames / sizeof regnames[0] == SCPI_REG_COUNT) ? 1 : -1];
 static int regindex(const char * n) {
     int i;
-    for (i = 0; i < 10; i++) if (!strcmp(regnames[i], n)) return i;
+    for (i = 0; i < NREG; i++) if (!strcmp(regnames[i], n)) return i;
     fprintf(stderr, "bad register %s\n", n);
     exit(3);
 }
@@ -77,7 +84,7 @@ static void fresh(void) {
 static void print_state(FILE * f) {
     int i, n = ctx.error_queue.count, rd = ctx.error_queue.rd;
     fprintf(f, "{\"r\":[");
-    for (i = 0; i < 10; i++) fprintf(f, "%s%d", i ? "," : "", (int) ctx.registers[i]);
+    for (i = 0; i < NREG; i++) fprintf(f, "%s%d", i ? "," : "", (int) ctx.registers[i]);
     fprintf(f, "],\"q\":[");
     for (i = 0; i < n; i++) fprintf(f, "%s%d", i ? "," : "", (int) eq[(rd + i) % ctx.error_queue.size].error_code);
     fprintf(f, "]}");
@@ -104,6 +111,7 @@ static void apply(const op_t * o) {
     else if (!strcmp(o->kind, "push")) SCPI_ErrorPush(&ctx, (int16_t) o->val);
     else if (!strcmp(o->kind, "pop")) { scpi_error_t e; SCPI_ErrorPop(&ctx, &e); resp[nresp++] = e.error_code; }
     else if (!strcmp(o->kind, "clear")) SCPI_ErrorClear(&ctx);
+    else if (!strcmp(o->kind, "cls")) SCPI_CoreCls(&ctx);
     else if (!strcmp(o->kind, "count")) resp[nresp++] = SCPI_ErrorCount(&ctx);
     else if (!strcmp(o->kind, "cmd")) {
         char line[96];
@@ -159,14 +167,14 @@ static void load_ops(const char * path) {
 
 /* ---- exploration with snapshot/restore ---- */
 typedef struct { scpi_t c; scpi_error_t q[MAXCAP]; } snap_t;
-typedef struct { unsigned short regs[10]; short wr, rd, count; short codes[MAXCAP]; size_t pos; } skey_t;
+typedef struct { unsigned short regs[40]; short wr, rd, count; short codes[MAXCAP]; size_t pos; } skey_t;
 
 static void take(snap_t * s) { s->c = ctx; memcpy(s->q, eq, sizeof eq); }
 static void restore(const snap_t * s) { ctx = s->c; memcpy(eq, s->q, sizeof eq); }
 static void mkkey(skey_t * k) {
     int i;
     memset(k, 0, sizeof *k);
-    for (i = 0; i < 10; i++) k->regs[i] = ctx.registers[i];
+    for (i = 0; i < NREG; i++) k->regs[i] = ctx.registers[i];
     k->wr = ctx.error_queue.wr; k->rd = ctx.error_queue.rd; k->count = ctx.error_queue.count;
     for (i = 0; i < ctx.error_queue.count; i++) k->codes[i] = eq[(ctx.error_queue.rd + i) % ctx.error_queue.size].error_code;
     k->pos = ctx.buffer.position;
@@ -280,6 +288,34 @@ static int walk(unsigned long seedv, long steps, const char * outpath) {
     return 0;
 }
 
+/* random walk over the whole register tree: register writes of every kind on every register, and *CLS */
+static int twalk(unsigned long seedv, long steps, const char * outpath) {
+    FILE * f = fopen(outpath, "w");
+    long i;
+    rng = 0x9E3779B97F4A7C15ull ^ (seedv * 0x100000001B3ull);
+    fresh();
+    for (i = 0; i < steps; i++) {
+        op_t o;
+        char from[512];
+        unsigned r = rnd() % 100;
+        memset(&o, 0, sizeof o);
+        strcpy(from, state_str());
+        if (r < 94) {
+            const char * kinds[] = {"set", "setbits", "clrbits"};
+            strcpy(o.kind, kinds[rnd() % 3]);
+            strcpy(o.name, regnames[(r < 3) ? 0 : 1 + rnd() % (NREG - 1)]);
+            o.val = rndval(); o.hasval = 1;
+            if (rnd() % 3 == 0) o.val = 1L << (rnd() % 16);
+        } else strcpy(o.kind, "cls");
+        apply(&o);
+        record(f, from, &o);
+        if (rnd() % 4000 == 0) fresh();
+    }
+    fclose(f);
+    printf("{\"steps\":%ld}\n", steps);
+    return 0;
+}
+
 static int allcodes(const char * outpath) {
     FILE * f = fopen(outpath, "w");
     long c;
@@ -318,6 +354,7 @@ int main(int argc, char ** argv) {
     if (getenv("DRV_NO_ERROR_CALLBACK")) itf.error = NULL;      /* the error callback is optional: the status byte must not depend on it */
     if (argc >= 6 && !strcmp(argv[1], "explore")) { cap = atoi(argv[3]); return explore(argv[2], atol(argv[4]), argv[5]); }
     if (argc >= 6 && !strcmp(argv[1], "walk")) { cap = atoi(argv[4]); return walk(strtoul(argv[2], 0, 10), atol(argv[3]), argv[5]); }
+    if (argc >= 5 && !strcmp(argv[1], "twalk")) { cap = 2; return twalk(strtoul(argv[2], 0, 10), atol(argv[3]), argv[4]); }
     if (argc >= 3 && !strcmp(argv[1], "codes")) { cap = 2; return allcodes(argv[2]); }
     if (argc >= 5 && !strcmp(argv[1], "path")) { cap = atoi(argv[3]); return path(argv[2], argv[4]); }
     fprintf(stderr, "usage\n");
